@@ -16,9 +16,9 @@ from .core import BITS, tmax, tmin
 
 FLAGS = C.SWEEP_FLAGS
 FP = ("float", "double", "long double")
-FMAX = {"float": (2 - 2.0 ** -23) * 2.0 ** 127, "double": 1.7976931348623157e308}
-FMIN = {"float": 2.0 ** -126, "double": 2.2250738585072014e-308}
-FDEN = {"float": 2.0 ** -149, "double": 5e-324}
+FMAX = {"float": (2 - 2.0 ** -23) * 2.0 ** 127, "double": 1.7976931348623157e308, "long double": 1.7976931348623157e308}
+FMIN = {"float": 2.0 ** -126, "double": 2.2250738585072014e-308, "long double": 2.2250738585072014e-308}
+FDEN = {"float": 2.0 ** -149, "double": 5e-324, "long double": 5e-324}
 
 
 def f32(x):
@@ -401,6 +401,10 @@ def instances(quick):
         for u in tu:
             for r in (("float", "double", "int32_t") if quick else ("float", "double", "int32_t", "int16_t", "int64_t", "uint8_t")):
                 out.append(trig(fn, u, r))
+    # long double reps: only the exact case (argument already in radians: the result must be std::sin etc. of exactly
+    # that long double, bit for bit); other units would need a reference beyond long double
+    for fn in ("sin", "cos", "tan"):
+        out.append(trig(fn, tu[0], "long double"))
     for fn in ("arcsin", "arccos", "arctan"):
         for r in ("float", "double", "int32_t"):
             out.append(one_inst(fn, r))
